@@ -227,6 +227,9 @@ def gen_C17(rnd, n, tier):
                        "mid": {"maxLineLength": 60, "widths": {"default": 5}}, "huge": {"maxLineLength": 60, "widths": {"default": 30}}})
     src_nd = 'text Greeting { format("Hello there traveller how are you today my friend") }\n'
     base.append((Case(compile_line(nodef, src_nd), src_nd, nodef, {}), 8))
+    for bad in ["script Bad { special(DoBadThing)\n Bad_1:\n if (flag(FLAG_B)) { setvar(VAR_0x8004, 7) } }\n",
+                'script Bad2 { lock msgbox("x")\n Bad2_Text_0:\n release }\n', "script G { lock if (flag(FLAG_A)) { a } release end }\n"]:
+        base.append((Case(compile_line(base_cfg(), bad), bad, base_cfg(), {}), 6))
     many = Cfg(fonts={("F%d" % k): {"widths": {}} for k in range(8)})
     base.append((Case(compile_line(many, src), src, many, {}), 6))
     src2 = 'text T { poryswitch(V) { A: "x" } }\nscript S { poryswitch(W) { Q: a } }\n'
@@ -320,7 +323,9 @@ def gen_C18(rnd, n, tier):
             for _ in range(rnd.choice([0, 0, 1, 1, 2, 3])): src = mutate(src, rnd)     # well-formed programs are inputs too
         elif x < 0.57:
             src = rnd.choice(["const FLAG_DONE = FLAG_DONE\n\nscript S {\n\tsetflag(FLAG_DONE)\n}", "const OBJ_A = OBJ_B\nconst OBJ_B = OBJ_A\nscript S { turn(OBJ_A, OBJ_B) if (var(OBJ_B) == OBJ_A) { x } }",
-                              "const K = K + 1\nmart M { K }\nscript S { switch (var(K)) { case K: a } }", "const A = B\nconst B = C\nconst C = A\nmapscripts M { T [ A, B: C ] }"])
+                              "const K = K + 1\nmart M { K }\nscript S { switch (var(K)) { case K: a } }", "const A = B\nconst B = C\nconst C = A\nmapscripts M { T [ A, B: C ] }",
+                              "movement M { walk_up * 9223372036854775807 }", "script S { a(moves(walk_up * 0x7fffffffffffffff)) }", "movement M { face_down walk_up * 9000000000000000000 }",
+                              "movement M { walk_up * 4294967296 walk_down * 65536 }"])
         elif x < 0.7:
             from cases_data import Pory
             src = Pory(rnd).program()[0]
@@ -383,7 +388,8 @@ def lexeme(r):
     if x < 0.45: return ("num", r.choice(NUMS))
     if x < 0.75: return ("p", r.choice(PUNCT))
     if x < 0.82: return ("ill", r.choice(ILLEGAL))
-    if x < 0.92: return ("str", r.choice(STRS))
+    if x < 0.86: return ("str", r.choice(STRS))
+    if x < 0.92: return ("mstr", r.choice([['"Hello\\n"', '"World"'], ['"a"', '"b"', '"c$"'], ['"One\\p"', '"Two"']]))
     if x < 0.96: return ("typed", r.choice(TYPED))
     return ("raw", r.choice(RAW))
 
@@ -402,23 +408,27 @@ def sep(r, force):
 
 def needs_sep(a, b):
     (ka, ta), (kb, tb) = a, b
+    if kb == "num" and tb.startswith("-") and ka in ("id", "num") or (kb == "num" and tb.startswith("-") and ta == ")"): return False   # BASE-1 is BASE, -1
     if ka == "p" and ta in "(){}[],:*" and kb == "p" and tb in "(){}[],:*": return False
     return True
 
 def render_lexemes(ls, r):
     s = sep(r, False); offs = []
     for i, l in enumerate(ls):
-        offs.append(len(s.encode())); s += l[1]
+        offs.append(len(s.encode()))
+        if l[0] == "mstr":      # parts of one literal, separated by blanks only (any mix incl. CRLF): one token
+            s += "".join(pt + (r.choice([" ", "\n  ", "\r\n\t", "  ", "\t\r\n"]) if k + 1 < len(l[1]) else "") for k, pt in enumerate(l[1]))
+        else: s += l[1]
         if i + 1 < len(ls):
-            if l[0] in ("str", "typed") and ls[i + 1][0] == "str": s += " # c\n"
+            if l[0] in ("str", "typed", "mstr") and ls[i + 1][0] in ("str", "mstr"): s += " # c\n"
             else:
                 sp = sep(r, needs_sep(l, ls[i + 1]))
-                if l[1].endswith("/") and sp.startswith("/"): sp = " " + sp   # '/' + '// c' would read as a comment
+                if l[0] != "mstr" and l[1].endswith("/") and sp.startswith("/"): sp = " " + sp   # '/' + '// c' would read as a comment
                 s += sp
         else:
             sp = sep(r, False)
             if r.random() < 0.25: sp += r.choice(["# end", "//", "// c", " #", "\t//x"])    # a comment that ends the file without a newline
-            if l[1].endswith("/") and sp.startswith("/"): sp = " " + sp
+            if l[0] != "mstr" and l[1].endswith("/") and sp.startswith("/"): sp = " " + sp
             s += sp
     return s, offs
 
@@ -480,7 +490,7 @@ def oracle_C19_group(cases, results):
             if t["line"] != ln: return "token %r: line %d, true line %d" % (t, t["line"], ln)
             if t["startChar"] != col: return "token %r: start byte column %d, true %d" % (t, t["startChar"], col)
             if t["startUtf8"] != ucol: return "token %r: start char column %d, true %d" % (t, t["startUtf8"], ucol)
-            if t["type"] != "RAWSTRING" and t["line"] == t["endLine"]:
+            if t["type"] != "RAWSTRING" and t["line"] == t["endLine"] and "\n" not in t["lit"]:
                 extra = 2 if t["type"] == "STRING" else 0
                 if t["endChar"] != t["startChar"] + len(t["lit"].encode()) + extra: return "token %r: end byte column is not start + length" % (t,)
                 if t["endUtf8"] != t["startUtf8"] + len(t["lit"]) + extra: return "token %r: end char column is not start + length" % (t,)
@@ -550,7 +560,8 @@ def gen_C20(rnd, n, tier):
             body = bl + ["  switch (var(V)) {", "    default: a", "    case 2: c", "    default: b", "  }"]; line = len(head) + 1 + len(bl) + 4
             src = assemble(head, body)
         elif kind == "const_redef":
-            lines = ["const K = 1", "const J = K + 1"] + head + ["const K = 2", "script S {"] + bl + ["}"]
+            second = rnd.choice(["const K = 2", "const K = 1", "const J = 1 + 1", "const J = K + 1"])      # also with the very same value
+            lines = ["const K = 1", "const J = K + 1"] + head + [second, "script S {"] + bl + ["}"]
             src = "\n".join(lines) + "\n"; line = 2 + len(head) + 1
         elif kind == "text_clash":
             lines = head + ["script S {"] + bl + ['  msgbox("hi")', "}", "text S_Text_0 {", '  "clash"', "}"]
